@@ -63,9 +63,30 @@ def run_verus(data, tag, extra_flags=(), use_cache=True):
         with open(f, 'wb') as fh:
             fh.write(data)
         t0 = time.time()
-        p = subprocess.run(['verus'] + VERUS_FLAGS + list(extra_flags) + [f], cwd=tmp, stdout=subprocess.PIPE, stderr=subprocess.PIPE, universal_newlines=True)
+        # wall-clock guard: a query on which the solver does not come back (seen with bit-vector heavy specs, where z3 ignores
+        # the rlimit) is a resource error (undecided), never a hang of the check and never an alarm
+        limit = float(os.environ.get('VERIF_VERUS_TIMEOUT', '1500'))
+        pp = subprocess.Popen(['verus'] + VERUS_FLAGS + list(extra_flags) + [f], cwd=tmp, stdout=subprocess.PIPE, stderr=subprocess.PIPE,
+                              universal_newlines=True, start_new_session=True)
+        timed_out = False
+        try:
+            so, se = pp.communicate(timeout=limit)
+        except subprocess.TimeoutExpired:
+            timed_out = True
+            try:
+                os.killpg(pp.pid, 9)
+            except OSError:
+                pass
+            so, se = pp.communicate()
+        class _P(object):
+            pass
+        p = _P()
+        p.stdout, p.stderr, p.returncode = so, se, pp.returncode
         wall = time.time() - t0
         diags = []
+        if timed_out:
+            diags.append({'level': 'error', 'message': 'verifier timed out after %d s of wall-clock time (VERIF_VERUS_TIMEOUT)' % int(limit),
+                          'rendered': 'verifier timed out after %d s of wall-clock time' % int(limit), 'spans': []})
         for ln in p.stderr.split('\n'):
             ln = ln.strip()
             if ln.startswith('{'):
